@@ -44,347 +44,7 @@ func c16HasCycle(g int, mask int) bool {
 	return r[0][0] || r[1][1] || r[2][2]
 }
 
-var c16ABC = []string{"A", "B", "C"}
-
-// ---------------------------------------------------------------- family 1: entity parent graphs
-
-const c16EntityGraphVariants = 6
-
-// c16EntityGraphCase: idx -> (digraph over {A,B,C}, variant). Variants: 0 all in the empty
-// namespace; 1 all in NS (unqualified references); 2 A in the empty namespace, B and C in NS;
-// 3 C is an enum type; 4 A additionally has an undefined parent; 5 NS::A shadows A.
-func c16EntityGraphCase(idx int) c16Case {
-	g, v := idx&511, idx>>9
-	cs := c16Case{Stream: "entity-graphs", Idx: idx}
-	nsOf := func(i int) string {
-		switch v {
-		case 1:
-			return "NS"
-		case 2:
-			if i > 0 {
-				return "NS"
-			}
-		}
-		return ""
-	}
-	qn := func(i int) string { return c16Q(nsOf(i), c16ABC[i]) }
-	ref := func(from, to int) string {
-		if nsOf(from) == "" && nsOf(to) != "" {
-			return qn(to)
-		}
-		return c16ABC[to] // same namespace, or NS -> empty namespace fallback
-	}
-	byNS := map[string]*c16NS{}
-	order := []string{}
-	getNS := func(n string) *c16NS {
-		if byNS[n] == nil {
-			byNS[n] = &c16NS{Name: n}
-			order = append(order, n)
-		}
-		return byNS[n]
-	}
-	getNS("")
-	mask := 7
-	for i := 0; i < 3; i++ {
-		e := c16Entity{Name: c16ABC[i], HasShape: true, Shape: []c16Attr{c16At("n", c16TLong()), c16Ato("o", c16TEnt(ref(i, (i+1)%3)))}}
-		if v == 3 && i == 2 {
-			e = c16Entity{Name: "C", IsEnum: true, Values: []string{"e", "f"}}
-			mask = 3
-		} else {
-			for j := 0; j < 3; j++ {
-				if g>>(3*i+j)&1 == 1 {
-					e.Parents = append(e.Parents, ref(i, j))
-				}
-			}
-			if v == 4 && i == 0 {
-				e.Parents = append(e.Parents, "Zz")
-			}
-		}
-		ns := getNS(nsOf(i))
-		ns.Entities = append(ns.Entities, e)
-	}
-	if v == 5 {
-		ns := getNS("NS")
-		ns.Entities = append(ns.Entities, c16Entity{Name: "A", Parents: []string{"A"}})
-	}
-	all := []string{qn(0), qn(1), qn(2)}
-	bare := getNS("")
-	bare.Actions = append(bare.Actions, c16Action{Name: "act", HasApplies: true, Principals: all, Resources: all, Context: c16Ptr(c16TRec())})
-	for _, n := range order {
-		cs.Schema.NS = append(cs.Schema.NS, *byNS[n])
-	}
-	if c16HasCycle(g, mask) {
-		cs.Feat = append(cs.Feat, "entity hierarchy: cyclic")
-	} else {
-		cs.Feat = append(cs.Feat, "entity hierarchy: acyclic")
-	}
-	cs.Feat = append(cs.Feat, fmt.Sprintf("entity-graph variant %d", v))
-
-	var ents []c16Ent
-	for i := 0; i < 3; i++ {
-		e := c16Ent{UID: c16UID{qn(i), "e"}, Attrs: c16VRec("n", c16VLong(1)), Tags: c16VRec()}
-		for j := 0; j < 3; j++ {
-			if g>>(3*i+j)&1 == 1 {
-				e.Parents = append(e.Parents, c16UID{qn(j), "e"})
-			}
-		}
-		ents = append(ents, e)
-		cs.Arts = append(cs.Arts, c16ArtEnt(e))
-	}
-	cs.Arts = append(cs.Arts, c16ArtEnts(ents...),
-		c16ArtReq(c16Req{P: c16UID{qn(0), "e"}, A: c16UID{"Action", "act"}, R: c16UID{qn(1), "e"}, Ctx: c16VRec()}),
-		c16ArtReq(c16Req{P: c16UID{qn(2), "e"}, A: c16UID{"Action", "act"}, R: c16UID{"Zz", "e"}, Ctx: c16VRec("x", c16VLong(1))}))
-	P, R := c16EVar("principal"), c16EVar("resource")
-	for i := 0; i < 3; i++ {
-		t, t2 := qn(i), qn((i+1)%3)
-		cs.Arts = append(cs.Arts,
-			c16ArtPol(c16PolWhen(c16EBin("in", P, c16EEnt(t, "e")))),
-			c16ArtPol(c16PolWhen(c16EBin("in", R, c16ESet(c16EEnt(t, "e"), c16EEnt(t2, "f"))))),
-			c16ArtPol(c16PolScope(c16ScIn(c16UID{t, "e"}), c16ScAll(), c16ScAll())),
-			c16ArtPol(c16PolScope(c16ScIsIn(t2, c16UID{t, "e"}), c16ScAll(), c16ScIn(c16UID{t, "e"}))),
-		)
-	}
-	cs.Arts = append(cs.Arts,
-		c16ArtPol(c16PolWhen(c16EBin("in", P, R))),
-		c16ArtPol(c16PolWhen(c16EBin("in", c16EIf(c16EBin("==", P, R), P, R), c16EEnt(qn(0), "e")))),
-		c16ArtPol(c16PolWhen(c16EIsIn(P, qn(1), c16EEnt(qn(2), "e")))),
-		c16ArtPol(c16PolWhen(c16EBin("in", c16EAcc(P, "o"), c16EEnt(qn(0), "e")))),
-	)
-	return cs
-}
-
 func c16Ptr[T any](v T) *T { return &v }
-
-// ---------------------------------------------------------------- family 2: common type graphs
-
-const c16CommonGraphVariants = 12
-
-var c16XYZ = []string{"X", "Y", "Z"}
-
-// c16CommonGraphCase: idx -> (reference digraph over common types {X,Y,Z}, body shape, layout).
-// Shapes: 0 record of references, 1 sets of references, 2 direct aliases. Layouts: 0 empty
-// namespace; 1 all in NS, unqualified; 2 X in the empty namespace, Y and Z in NS; 3 all in the
-// nested namespace NS::Sub with fully qualified references.
-func c16CommonGraphCase(idx int) c16Case {
-	g, v := idx&511, idx>>9
-	shape, layout := v%3, v/3
-	cs := c16Case{Stream: "common-type-graphs", Idx: idx}
-	nsOf := func(i int) string {
-		switch layout {
-		case 1:
-			return "NS"
-		case 2:
-			if i > 0 {
-				return "NS"
-			}
-		case 3:
-			return "NS::Sub"
-		}
-		return ""
-	}
-	ref := func(from, to int) c16Type {
-		if layout == 3 || (nsOf(from) == "" && nsOf(to) != "") {
-			return c16TRef(c16Q(nsOf(to), c16XYZ[to]))
-		}
-		return c16TRef(c16XYZ[to])
-	}
-	byNS := map[string]*c16NS{}
-	order := []string{}
-	getNS := func(n string) *c16NS {
-		if byNS[n] == nil {
-			byNS[n] = &c16NS{Name: n}
-			order = append(order, n)
-		}
-		return byNS[n]
-	}
-	getNS("")
-	for i := 0; i < 3; i++ {
-		var outs []int
-		for j := 0; j < 3; j++ {
-			if g>>(3*i+j)&1 == 1 {
-				outs = append(outs, j)
-			}
-		}
-		var body c16Type
-		switch {
-		case shape == 0:
-			attrs := []c16Attr{c16At("k", c16TLong())}
-			for _, j := range outs {
-				attrs = append(attrs, c16At("f"+c16XYZ[j], ref(i, j)))
-			}
-			body = c16TRec(attrs...)
-		case len(outs) == 0 && shape == 1:
-			body = c16TLong()
-		case len(outs) == 0:
-			body = c16TString()
-		case len(outs) == 1 && shape == 1:
-			body = c16TSet(ref(i, outs[0]))
-		case len(outs) == 1:
-			body = ref(i, outs[0])
-		default:
-			var attrs []c16Attr
-			for _, j := range outs {
-				if shape == 1 {
-					attrs = append(attrs, c16At("f"+c16XYZ[j], c16TSet(ref(i, j))))
-				} else {
-					attrs = append(attrs, c16Ato("f"+c16XYZ[j], ref(i, j)))
-				}
-			}
-			body = c16TRec(attrs...)
-		}
-		ns := getNS(nsOf(i))
-		ns.Commons = append(ns.Commons, c16Common{Name: c16XYZ[i], T: body})
-	}
-	// users live next to X
-	home := getNS(nsOf(0))
-	ctx := c16TRec(c16At("c", ref(0, 0)))
-	if shape == 0 {
-		ctx = ref(0, 0) // a reference that must resolve to a record
-	}
-	home.Entities = append(home.Entities, c16Entity{Name: "E", HasShape: true,
-		Shape: []c16Attr{c16At("p", ref(0, 0)), c16At("q", c16TSet(ref(0, 1)))}, Tags: c16Ptr(ref(0, 2))})
-	home.Actions = append(home.Actions, c16Action{Name: "act", HasApplies: true, Principals: []string{"E"}, Resources: []string{"E"}, Context: &ctx})
-	for _, n := range order {
-		cs.Schema.NS = append(cs.Schema.NS, *byNS[n])
-	}
-	if c16HasCycle(g, 7) {
-		cs.Feat = append(cs.Feat, "common types: cyclic")
-	} else {
-		cs.Feat = append(cs.Feat, "common types: acyclic")
-	}
-	cs.Feat = append(cs.Feat, fmt.Sprintf("common-graph shape %d layout %d", shape, layout))
-
-	E := c16Q(nsOf(0), "E")
-	act := c16UID{c16ActionType(nsOf(0)), "act"}
-	P, C := c16EVar("principal"), c16EVar("context")
-	cs.Arts = append(cs.Arts,
-		c16ArtPol(c16PolWhen(c16EBin("==", c16EAcc(P, "p"), c16EAcc(c16EVar("resource"), "p")))),
-		c16ArtPol(c16PolWhen(c16EBin("==", c16EAcc(c16EAcc(c16EAcc(c16EAcc(P, "p"), "fY"), "fZ"), "k"), c16EVal(c16VLong(1))))),
-		c16ArtPol(c16PolWhen(c16EBin("contains", c16EAcc(P, "q"), c16EAcc(P, "p")))),
-		c16ArtPol(c16PolWhen(c16EBin("and", c16EBin("hasTag", P, c16EVal(c16VStr("a"))), c16EBin("==", c16EBin("getTag", P, c16EVal(c16VStr("a"))), c16EAcc(P, "p"))))),
-		c16ArtPol(c16PolWhen(c16EBin("==", c16EAcc(C, "c"), c16EAcc(C, "k")))),
-		c16ArtPol(c16PolWhen(c16EBin("and", c16EHas(c16EAcc(C, "fY"), "fZ"), c16EBin("==", c16EAcc(c16EAcc(C, "fY"), "fZ"), C)))),
-		c16ArtPol(c16PolScope(c16ScIs(E), c16ScEq(act), c16ScIs(E))),
-		c16ArtEnt(c16Ent{UID: c16UID{E, "e"}, Attrs: c16VRec("p", c16VRec("k", c16VLong(1)), "q", c16VSet(c16VLong(1), c16VRec("k", c16VLong(2)))), Tags: c16VRec("a", c16VStr("x"), "b", c16VRec("k", c16VLong(1)))}),
-		c16ArtEnt(c16Ent{UID: c16UID{E, "f"}, Attrs: c16VRec("p", c16VStr("s"), "q", c16VSet()), Tags: c16VRec()}),
-		c16ArtReq(c16Req{P: c16UID{E, "e"}, A: act, R: c16UID{E, "f"}, Ctx: c16VRec("k", c16VLong(1))}),
-		c16ArtReq(c16Req{P: c16UID{E, "e"}, A: act, R: c16UID{E, "f"}, Ctx: c16VRec("c", c16VRec("k", c16VLong(1)))}),
-	)
-	return cs
-}
-
-// ---------------------------------------------------------------- family 3: action group graphs
-
-const c16ActionGraphVariants = 6
-
-var c16abc = []string{"a", "b", "c"}
-
-// c16ActionGraphCase: idx -> (memberOf digraph over actions {a,b,c}, variant). Variants:
-// 0 empty namespace, parents by bare id; 1 parents with explicit type; 2 everything in NS,
-// bare ids; 3 a in the empty namespace, b and c in NS, fully qualified parents; 4 as 0 plus an
-// undefined parent; 5 as 1, b without appliesTo and c with empty principal/resource lists.
-func c16ActionGraphCase(idx int) c16Case {
-	g, v := idx&511, idx>>9
-	cs := c16Case{Stream: "action-graphs", Idx: idx}
-	nsOf := func(i int) string {
-		switch v {
-		case 2:
-			return "NS"
-		case 3:
-			if i > 0 {
-				return "NS"
-			}
-		}
-		return ""
-	}
-	typed := v == 1 || v == 3 || v == 5
-	byNS := map[string]*c16NS{}
-	order := []string{}
-	getNS := func(n string) *c16NS {
-		if byNS[n] == nil {
-			byNS[n] = &c16NS{Name: n}
-			order = append(order, n)
-		}
-		return byNS[n]
-	}
-	bare := getNS("")
-	bare.Entities = append(bare.Entities, c16Entity{Name: "U", HasShape: true, Shape: []c16Attr{c16At("n", c16TLong())}})
-	uidOf := func(i int) c16UID { return c16UID{c16ActionType(nsOf(i)), c16abc[i]} }
-	for i := 0; i < 3; i++ {
-		a := c16Action{Name: c16abc[i], HasApplies: true, Principals: []string{"U"}, Resources: []string{"U"},
-			Context: c16Ptr(c16TRec(c16At("n", c16TLong())))}
-		for j := 0; j < 3; j++ {
-			if g>>(3*i+j)&1 == 1 {
-				if typed || nsOf(i) != nsOf(j) {
-					a.Parents = append(a.Parents, c16ParentRef{Type: c16ActionType(nsOf(j)), ID: c16abc[j]})
-				} else {
-					a.Parents = append(a.Parents, c16ParentRef{ID: c16abc[j]})
-				}
-			}
-		}
-		if v == 4 && i == 0 {
-			a.Parents = append(a.Parents, c16ParentRef{ID: "zz"})
-		}
-		if v == 5 && i == 1 {
-			a.HasApplies, a.Principals, a.Resources, a.Context = false, nil, nil, nil
-		}
-		if v == 5 && i == 2 {
-			a.Principals, a.Resources = nil, nil
-		}
-		ns := getNS(nsOf(i))
-		ns.Actions = append(ns.Actions, a)
-	}
-	for _, n := range order {
-		cs.Schema.NS = append(cs.Schema.NS, *byNS[n])
-	}
-	if c16HasCycle(g, 7) {
-		cs.Feat = append(cs.Feat, "action groups: cyclic")
-	} else {
-		cs.Feat = append(cs.Feat, "action groups: acyclic")
-	}
-	cs.Feat = append(cs.Feat, fmt.Sprintf("action-graph variant %d", v))
-
-	A, P := c16EVar("action"), c16EVar("principal")
-	lit := func(u c16UID) c16Expr { return c16EEnt(u.T, u.ID) }
-	for i := 0; i < 3; i++ {
-		t, t2 := uidOf(i), uidOf((i+1)%3)
-		cs.Arts = append(cs.Arts,
-			c16ArtPol(c16PolScope(c16ScAll(), c16ScEq(t), c16ScAll())),
-			c16ArtPol(c16PolScope(c16ScAll(), c16ScIn(t), c16ScAll())),
-			c16ArtPol(c16PolScope(c16ScAll(), c16ScInSet(t, t2), c16ScAll())),
-			c16ArtPol(c16PolWhen(c16EBin("in", A, lit(t)))),
-			c16ArtPol(c16PolWhen(c16EBin("in", A, c16ESet(lit(t), lit(t2))))),
-			c16ArtPol(c16PolWhen(c16EBin("in", lit(t), lit(t2)))),
-			c16ArtPol(c16PolWhen(c16EBin("in", P, lit(t)))),
-		)
-	}
-	zz := c16UID{"Action", "zz"}
-	cs.Arts = append(cs.Arts,
-		c16ArtPol(c16PolScope(c16ScAll(), c16ScInSet(), c16ScAll())),
-		c16ArtPol(c16PolScope(c16ScAll(), c16ScIn(zz), c16ScAll())),
-		c16ArtPol(c16PolWhen(c16EBin("in", A, lit(zz)))),
-		c16ArtPol(c16PolWhen(c16EBin("or", c16EBin("==", A, lit(uidOf(2))), c16EHas(A, "foo")))),
-		c16ArtPol(c16PolScope(c16ScIn(uidOf(0)), c16ScAll(), c16ScEq(uidOf(1)))),
-	)
-	// action entities: parents = direct parents only, and = a superset
-	var ents []c16Ent
-	for i := 0; i < 3; i++ {
-		e := c16Ent{UID: uidOf(i), Attrs: c16VRec(), Tags: c16VRec()}
-		for j := 0; j < 3; j++ {
-			if g>>(3*i+j)&1 == 1 {
-				e.Parents = append(e.Parents, uidOf(j))
-			}
-		}
-		ents = append(ents, e)
-		cs.Arts = append(cs.Arts, c16ArtEnt(e))
-		full := e
-		full.Parents = []c16UID{uidOf(0), uidOf(1), uidOf(2)}
-		cs.Arts = append(cs.Arts, c16ArtEnt(full))
-		cs.Arts = append(cs.Arts, c16ArtReq(c16Req{P: c16UID{"U", "u"}, A: uidOf(i), R: c16UID{"U", "v"}, Ctx: c16VRec("n", c16VLong(1))}))
-	}
-	cs.Arts = append(cs.Arts, c16ArtEnts(ents...), c16ArtEnt(c16Ent{UID: zz, Attrs: c16VRec("x", c16VLong(1)), Tags: c16VRec()}))
-	return cs
-}
 
 // ---------------------------------------------------------------- family 4: literal table
 
@@ -397,6 +57,7 @@ func c16BaseSchema() c16Schema {
 				c16At("rec", c16TRec(c16At("x", c16TLong()), c16Ato("y", c16TString()))), c16At("ip", c16TExt("ipaddr")), c16At("dec", c16TExt("decimal")),
 				c16At("dt", c16TExt("datetime")), c16At("dur", c16TExt("duration")), c16At("b", c16TBool()), c16At("es", c16TSet(c16TEnt("G")))}},
 			{Name: "G", HasShape: true, Shape: []c16Attr{c16At("a", c16TLong())}},
+			{Name: "B", Parents: []string{"G"}, HasShape: true, Tags: c16Ptr(c16TLong()), Shape: []c16Attr{c16At("a", c16TString()), c16At("owner", c16TEnt("U")), c16Ato("opt", c16TString())}},
 			{Name: "D", Parents: []string{"G"}, HasShape: true, Tags: c16Ptr(c16TSet(c16TLong())), Shape: []c16Attr{c16At("owner", c16TEnt("U")), c16At("a", c16TLong())}},
 			{Name: "Color", IsEnum: true, Values: []string{"red", "green"}},
 		},
@@ -448,6 +109,17 @@ func c16Templates() []c16Template {
 	add("isIn(p,_)", func(h c16Expr) c16Expr { return c16EIsIn(P, "U", h) })
 	add("has(_)", func(h c16Expr) c16Expr { return c16EHas(h, "a") })
 	add("access(_)", func(h c16Expr) c16Expr { return c16EBin("==", c16EAcc(h, "a"), one) })
+	add("has(_,owner)", func(h c16Expr) c16Expr { return c16EHas(h, "owner") })
+	add("access(_,owner)", func(h c16Expr) c16Expr { return c16EBin("==", c16EAcc(h, "owner"), u) })
+	add("access(_,opt) unguarded", func(h c16Expr) c16Expr { return c16EBin("==", c16EAcc(h, "opt"), c16EAcc(h, "opt")) })
+	add("has(_,opt) && access", func(h c16Expr) c16Expr {
+		return c16EBin("and", c16EHas(h, "opt"), c16EBin("==", c16EAcc(h, "opt"), one))
+	})
+	add("_.owner.getTag", func(h c16Expr) c16Expr { return c16EBin("==", c16EBin("getTag", c16EAcc(h, "owner"), str), str) })
+	add("_.hasTag(k) || _.getTag(k)", func(h c16Expr) c16Expr {
+		return c16EBin("or", c16EBin("hasTag", h, str), c16EBin("==", c16EBin("getTag", h, str), c16EBin("getTag", h, str)))
+	})
+	add("_.getTag(k).contains", func(h c16Expr) c16Expr { return c16EBin("contains", c16EBin("getTag", h, str), one) })
 	add("record{a:_}", func(h c16Expr) c16Expr { return c16EBin("==", c16ERec("a", h, "b", one), C) })
 	add("record{a:_}.a", func(h c16Expr) c16Expr { return c16EBin("==", c16EAcc(c16ERec("a", h), "a"), h) })
 	add("set[_]", func(h c16Expr) c16Expr { return c16EBin("contains", c16ESet(h), h) })
@@ -500,7 +172,7 @@ func c16Holes() []struct {
 		Name string
 		E    c16Expr
 	}
-	return []h{
+	out := []h{
 		{"value:bool", c16EVal(c16VBool(true))},
 		{"value:long", c16EVal(c16VLong(7))},
 		{"value:string", c16EVal(c16VStr("s"))},
@@ -531,6 +203,35 @@ func c16Holes() []struct {
 		{"expr:resource.owner", c16EAcc(c16EVar("resource"), "owner")},
 		{"expr:if(p==r) p else r", c16EIf(c16EBin("==", c16EVar("principal"), c16EVar("resource")), c16EVar("principal"), c16EVar("resource"))},
 	}
+	// operands whose type is a union of entity types that differ in what they declare
+	// (tags / no tags / other tag type, attribute present / absent / other type, enum), in
+	// both member orders: if-then-else with a non-constant test over entity literals and variables
+	lits := []c16Expr{c16EEnt("B", "b"), c16EEnt("Color", "red"), c16EEnt("D", "d"), c16EEnt("G", "g"), c16EEnt("U", "u")}
+	names := []string{"B", "Color", "D", "G", "U"}
+	P, R, C := c16EVar("principal"), c16EVar("resource"), c16EVar("context")
+	test := c16EBin("==", c16EAcc(C, "n"), c16EVal(c16VLong(1)))
+	test2 := c16EBin("<", c16EAcc(C, "n"), c16EVal(c16VLong(5)))
+	for i := range lits {
+		for j := range lits {
+			if i != j {
+				out = append(out, h{"union:" + names[i] + "|" + names[j], c16EIf(test, lits[i], lits[j])})
+			}
+		}
+	}
+	for _, t := range [][3]int{{0, 3, 4}, {3, 2, 1}, {4, 0, 2}, {1, 4, 3}} {
+		out = append(out, h{"union:" + names[t[0]] + "|" + names[t[1]] + "|" + names[t[2]], c16EIf(test, lits[t[0]], c16EIf(test2, lits[t[1]], lits[t[2]]))})
+	}
+	out = append(out,
+		h{"union:principal|resource", c16EIf(test, P, R)},
+		h{"union:resource|principal", c16EIf(test, R, P)},
+		h{"union:principal|G", c16EIf(test, P, lits[3])},
+		h{"union:G|resource", c16EIf(test, lits[3], R)},
+		h{"union:resource|Color", c16EIf(test, R, lits[1])},
+		h{"union:resource.owner|B|G", c16EIf(test, c16EAcc(R, "owner"), c16EIf(test2, lits[0], lits[3]))},
+		h{"expr:set of D and G", c16ESet(lits[2], lits[3])},
+		h{"expr:set of unions", c16ESet(c16EIf(test, lits[0], lits[3]), P)},
+	)
+	return out
 }
 
 func c16LiteralTableN() int { return len(c16Templates()) }
@@ -1188,7 +889,51 @@ var c16Ext1 = []string{"ip", "decimal", "datetime", "duration", "isIpv4", "isIpv
 var c16Ext2 = []string{"lessThan", "lessThanOrEqual", "greaterThan", "greaterThanOrEqual", "isInRange", "offset", "durationSince"}
 var c16Bin = []string{"and", "or", "==", "!=", "<", "<=", ">", ">=", "+", "-", "*", "in", "contains", "containsAll", "containsAny", "hasTag", "getTag"}
 
+// entityExpr: an expression of entity type (variable, literal of a declared type, attribute path).
+func (g *c16Rnd) entityExpr() c16Expr {
+	switch g.r.Intn(5) {
+	case 0:
+		return c16EVar("principal")
+	case 1:
+		return c16EVar("resource")
+	case 2:
+		return c16EAcc(c16EVar(g.pick([]string{"principal", "resource"})), g.pick(c16AttrNames))
+	case 3:
+		u := g.action()
+		return c16EEnt(u.T, u.ID)
+	}
+	u := g.uidOf(g.entType())
+	return c16EEnt(u.T, u.ID)
+}
+
+// unionExpr: if-then-else with a non-constant test over 2-3 entity-typed branches.
+func (g *c16Rnd) unionExpr() c16Expr {
+	test := c16EBin("==", c16EVar("principal"), c16EVar("resource"))
+	if g.r.Bool() {
+		test = c16EHas(c16EVar("context"), g.pick(c16AttrNames))
+	}
+	e := c16EIf(test, g.entityExpr(), g.entityExpr())
+	if g.r.Intn(3) == 0 {
+		e = c16EIf(c16EBin("!=", c16EVar("principal"), c16EVar("resource")), e, g.entityExpr())
+	}
+	return e
+}
+
 func (g *c16Rnd) leaf() c16Expr {
+	if g.r.Intn(8) == 0 {
+		u := g.unionExpr()
+		switch g.r.Intn(6) {
+		case 0:
+			return c16EBin("getTag", u, c16EVal(c16VStr("k")))
+		case 1:
+			return c16EBin("hasTag", u, c16EVal(c16VStr("k")))
+		case 2:
+			return c16EAcc(u, g.pick(c16AttrNames))
+		case 3:
+			return c16EHas(u, g.pick(c16AttrNames))
+		}
+		return u
+	}
 	switch x := g.r.Intn(12); {
 	case x < 3:
 		return c16EVar(g.pick(c16Vars))
